@@ -40,6 +40,10 @@ impl OutMessage {
             _ => return Err(anyhow::anyhow!("Message is neither text nor bytes")),
         };
 
+        if !crate::common::json_nesting_within_limit(&text) {
+            return Err(anyhow::anyhow!("Message is nested too deeply"));
+        }
+
         Ok(::simd_json::serde::from_slice(&mut text)?)
     }
 }
